@@ -42,10 +42,18 @@ Keys / security (Lite, Lite-S)
                     (bit 0 NDEF), byte 4 RF_PRM; Lite-S: byte 5 MC_CKCKV_W_MAC_A, 6-7 read needs EXT_AUTH,
                     8-9 write needs EXT_AUTH, 10-11 write needs MAC_A, 12 STATE write needs MAC_A (always true here).
     CK (87h) is not readable (status A8h), RC (80h) reads as zeros.
+Further services / systems with memory (non-interference targets; generic / Standard only)
+    model.add_aux_service(system_code, service_number, nblocks)   key-less random service `service_number` (service
+        codes number<<6|09h read/write and number<<6|0Bh read only) with `nblocks` blocks of its own in the system
+        `system_code` (12FCh = the NDEF system, or one of other_systems).  Its blocks live in model.blocks under the
+        keys AUX_BASE * (index + 1) + block number (index = position in model.aux_services), so image()/restore(),
+        the read/write logs and every block diff see them as blocks that never belong to the NDEF area.
 Observation
     model.cmd_log     list of (code, detail, (sf1, sf2) | None) for every command seen
     model.read_log    list of lists of block numbers answered with data (successful reads only)
     model.write_log   list of (block numbers, applied: bool)
+    model.write_data_log  list of (service codes of the command, block keys, [16 byte data ...], applied) per Write
+    model.svc_log     list of (command code, (service codes of the service list)) for every parsed Read / Write
     model.on_state_change()  is called after every command that programmed persistent memory
     model.power_cycle()      clears RC / session key / EXT_AUTH / selected system
 Tampering
@@ -56,6 +64,8 @@ are not answered (None -> TimeoutError at the reader).  Errors in a Read/Write a
 Simplifications (documented): REG (0Eh) is a plain block (no subtraction semantics); timing (PMm) is not modelled;
 multi block writes are applied atomically.
 """
+import functools
+
 import nfc.clf
 
 from vf.ref import felica_mac, t3_attr
@@ -67,6 +77,24 @@ SYS_LITE = 0x88B4
 
 A1, A2, A3, A4, A5, A6, A7, A8 = 0xA1, 0xA2, 0xA3, 0xA4, 0xA5, 0xA6, 0xA7, 0xA8
 B1, B2 = 0xB1, 0xB2
+
+
+# the MAC functions are pure; the checks repeat the same (key, challenge, data) many times (pure Python DES)
+@functools.lru_cache(maxsize=8192)
+def _mac(ck, rc, data):
+    return felica_mac.mac(ck, rc, data)
+
+
+@functools.lru_cache(maxsize=8192)
+def _mac_a_read(ck, rc, numbers, data):
+    return felica_mac.mac_a_read(ck, rc, list(numbers), data)
+
+
+@functools.lru_cache(maxsize=8192)
+def _mac_a_write(ck, rc, cur, n, d):
+    return felica_mac.mac_a_write(ck, rc, cur, n, d)
+
+AUX_BASE = 1 << 20    # block keys of further services: AUX_BASE * (index + 1) + block number
 
 LITE_USER = list(range(0, 0x0E))
 LITE_SYS_WRITABLE_WHEN_UNLOCKED = (0x82, 0x84, 0x86, 0x87, 0x88)
@@ -87,6 +115,7 @@ class T3TModel(object):
         self.max_write = 1
         self.rw_service = True
         self.other_systems = []         # system codes without any key-less service (Standard)
+        self.aux_services = []          # [(system code, service number)] further key-less services with own memory
         self.ndef_system_first = True
         self.ndef_area = set()
         self.wcnt_limit = 0xFFFFFF      # Lite-S: no write with MAC once WCNT is exhausted
@@ -99,6 +128,8 @@ class T3TModel(object):
         self.cmd_log = []
         self.read_log = []
         self.write_log = []
+        self.write_data_log = []
+        self.svc_log = []
         self.on_state_change = lambda: None
 
     # ---------------------------------------------------------------- construction
@@ -155,6 +186,23 @@ class T3TModel(object):
     @classmethod
     def lites(cls, nmaxb=13, message=b"", nbr=4, ic=0xF1, **kw):
         return cls.lite(nmaxb=nmaxb, message=message, nbr=nbr, ic=ic, kind="lites", **kw)
+
+    def add_aux_service(self, system_code, service_number, nblocks):
+        assert self.kind in ("generic", "standard")
+        assert system_code == SYS_NDEF or system_code in self.other_systems
+        assert 0 <= service_number < 1024 and (system_code != SYS_NDEF or service_number > 0)
+        idx = len(self.aux_services)
+        self.aux_services.append((system_code, service_number))
+        for n in range(nblocks):
+            self.blocks[AUX_BASE * (idx + 1) + n] = bytearray([(0x31 + idx * 16 + n * 3 + i) & 0xFF for i in range(16)])
+        return idx
+
+    def _space(self, sysidx, sc):
+        """0 = the NDEF services' memory, k > 0 = aux service k - 1"""
+        code = self.system_codes()[sysidx] if self.kind not in ("lite", "lites") else SYS_NDEF
+        if code == SYS_NDEF and sc >> 6 == 0:
+            return 0
+        return 1 + self.aux_services.index((code, sc >> 6))
 
     # ---------------------------------------------------------------- memory helpers
     def get_block(self, n):
@@ -314,9 +362,13 @@ class T3TModel(object):
     # ---------------------------------------------------------------- services
     def services(self, sysidx):
         codes = self.system_codes()
+        out = []
         if self.kind in ("lite", "lites") or codes[sysidx] == SYS_NDEF:
-            return ([SC_RW] if self.rw_service else []) + [SC_RO]
-        return []
+            out = ([SC_RW] if self.rw_service else []) + [SC_RO]
+        for code, num in self.aux_services:
+            if code == codes[sysidx]:
+                out += [num << 6 | 0x09, num << 6 | 0x0B]
+        return out
 
     def _request_service(self, sysidx, idm, body):
         if not body or len(body) != 1 + 2 * body[0] or not 1 <= body[0] <= 32:
@@ -337,6 +389,7 @@ class T3TModel(object):
     # ---------------------------------------------------------------- block list parsing
     def _parse_lists(self, sysidx, body, writing):
         """-> (error (sf1, sf2) | None, [block numbers], rest of body)"""
+        self._last_scs = ()
         if len(body) < 1:
             return (0xFF, A1), None, None
         ns = body[0]
@@ -351,9 +404,11 @@ class T3TModel(object):
             sc = body[1 + 2 * i] | body[2 + 2 * i] << 8
             if sc not in have:
                 return (0xFF, A6), None, None
-            if writing and sc != SC_RW:
+            if writing and sc & 0x3F != 0x09:
                 return (0xFF, A6), None, None
             scs.append(sc)
+        self.svc_log.append((0x08 if writing else 0x06, tuple(scs)))
+        self._last_scs = tuple(scs)
         p = 1 + 2 * ns
         nb = body[p]
         p += 1
@@ -375,7 +430,8 @@ class T3TModel(object):
                 return (bit, A3), None, None
             if (b0 >> 4) & 0x07:
                 return (bit, A7), None, None
-            numbers.append(number)
+            space = self._space(sysidx, scs[b0 & 0x0F])
+            numbers.append(number if space == 0 else AUX_BASE * space + number)
         return None, numbers, body[p:]
 
     # ---------------------------------------------------------------- Read Without Encryption
@@ -414,9 +470,9 @@ class T3TModel(object):
                 if self.rc_block is None:
                     mac = bytes(8)
                 elif n == 0x81:
-                    mac = felica_mac.mac(self.ck_block, self.rc_block, bytes(out))
+                    mac = _mac(self.ck_block, bytes(self.rc_block), bytes(out))
                 else:
-                    mac = felica_mac.mac_a_read(self.ck_block, self.rc_block, numbers[:i], bytes(out))
+                    mac = _mac_a_read(self.ck_block, bytes(self.rc_block), tuple(numbers[:i]), bytes(out))
                 if n == 0x81:
                     out += mac + bytes(8)
                 else:
@@ -445,6 +501,7 @@ class T3TModel(object):
         if err is not None:
             self.cmd_log.append((0x08, numbers, err))
             self.write_log.append((numbers, False))
+            self.write_data_log.append((getattr(self, "_last_scs", ()), numbers, None, False))
             return bytes(err)
         datas = [rest[i * 16:i * 16 + 16] for i in range(len(numbers))]
         if self.kind in ("lite", "lites"):
@@ -453,6 +510,7 @@ class T3TModel(object):
             err, persistent = self._write_plain(numbers, datas)
         self.cmd_log.append((0x08, numbers, err or (0, 0)))
         self.write_log.append((list(numbers), err is None))
+        self.write_data_log.append((self._last_scs, list(numbers), [bytes(d) for d in datas], err is None))
         if err is not None:
             return bytes(err)
         if persistent:
@@ -512,7 +570,7 @@ class T3TModel(object):
             cur = bytes(self.blocks[0x90][0:3])
             if self.wcnt >= self.wcnt_limit:
                 return (0x02, B2), False
-            want = felica_mac.mac_a_write(self.ck_block, self.rc_block, cur, n, d)
+            want = _mac_a_write(self.ck_block, bytes(self.rc_block), bytes(cur), n, bytes(d))
             if bytes(maca[0:8]) != want or bytes(maca[8:11]) != cur:
                 return (0x02, B2), False
         # ---- apply
